@@ -284,7 +284,7 @@ impl Prop for C19 {
             .prop_map(move |(name, mirror, reorder, h, t, reduced, mode, threads, kinks)| Case { name: name.to_string(), mirror, reorder, h, t, reduced, mode, threads, kinks, cap }).boxed()
     }
     fn cases(tier: Tier) -> u32 { tier.pick(1_500, 20_000) }
-    fn shards(_: Tier) -> usize { 8 }
+    fn shards(tier: Tier) -> usize { tier.pick(8, 16) }
     fn replay_repeats() -> usize { 5 }
     fn run(case: &Case, _ctx: &Ctx) -> Outcome { to_outcome(run_case(case)) }
 }
